@@ -280,17 +280,252 @@ Proof.
       simpl in Hs'. subst s'. set (e := {| e_m := m; e_d := d; e_p := xp; e_w := xw |}).
       destruct LB02 as (P02 & O02 & N02 & (W1 & W2 & W3) & C02).
       assert (Cs : cache s2 = cache s) by apply G02.
+      assert (Ccl : clocs s2 = clocs s) by (unfold clocs; now rewrite Cs).
+      assert (Old : forall l, In l (clocs s2) -> l < length (heap s)).
+      { intros l Hl. rewrite Ccl in Hl. destruct W as (Wa & _). rewrite Forall_forall in Wa. auto. }
       assert (Wn : wf (add_cache e s2)).
       { unfold wf. rewrite clocs_app. simpl. split; [|split; auto].
         - apply Forall_app. split; auto. repeat constructor; simpl; lia.
         - apply nodup_snoc2; auto.
-          + intros Hin. rewrite Forall_forall in W1. apply W1 in Hin.
-            destruct W as (Wa & _). unfold clocs in Hin. admit.
-          + admit.
+          + intros Hin. apply Old in Hin. lia.
+          + intros Hin. apply Old in Hin. lia.
           + simpl. lia. }
-      admit.
+      split.
+      { split; [exact P02|]. split; [exact O02|]. split; [|split; [exact Wn|]].
+        - intros e0 He0. simpl in He0. apply in_app_iff in He0.
+          destruct He0 as [H0|[<-|[]]]; [left; congruence | right; simpl; lia].
+        - intros m0 k0 Cl e0 He0 Hm0. simpl in He0. apply in_app_iff in He0.
+          destruct He0 as [H0|[<-|[]]].
+          + apply (C02 m0 k0 Cl e0); auto.
+          + simpl in Hm0. subst m0. change (hget (add_cache e s2)) with (hget s2).
+            destruct k0; simpl.
+            * rewrite (grows_hget s1 s2); auto. lia.
+            * exact Xw. }
+      split; [simpl; lia|]. split; [simpl; lia|]. split; [|split].
+      * intros [|]; simpl; left; lia.
+      * right. exists e. split; [simpl; now rewrite Cs|]. split; auto. simpl.
+        split; [lia|]. split; [lia|]. intros [|] I; simpl; intros E; [apply (Ap I)|apply (Aw I)]; auto.
+      * intros k V _. change (hget (add_cache e s2)) with (hget s2). now apply Vals.
     + rewrite (Np eq_refl) in Hs'. simpl in Hs'. subst s'.
       split; auto. split; [lia|]. split; auto. split; [|split; [left; apply G02|]].
       * intros [|]; simpl; left; lia.
       * intros k V _. now apply Vals.
-Admitted.
+Qed.
+
+(* ================================================================ invariants of single steps *)
+Lemma lib_sep cf s s' m k : wf s -> lib cf s s' -> separated s m k -> separated s' m k.
+Proof.
+  intros W (P & O & N & W' & _) S e He Hm Hin.
+  unfold olocs in Hin. rewrite O in Hin. fold (olocs s) in Hin.
+  destruct (N e He) as [H0|(H1 & H2)].
+  - apply (S e H0 Hm). exact Hin.
+  - destruct W as (_ & Wo & _). rewrite Forall_forall in Wo. apply Wo in Hin.
+    destruct k; unfold e_loc in Hin; simpl in Hin; lia.
+Qed.
+
+Lemma olocs_add o s : olocs (add_obj o s) = olocs s ++ [o_p o; o_w o].
+Proof. unfold olocs, add_obj. simpl. rewrite flat_map_app. simpl. reflexivity. Qed.
+
+Lemma add_obj_wf o s : wf s -> o_p o < length (heap s) -> o_w o < length (heap s) -> wf (add_obj o s).
+Proof.
+  intros (W1 & W2 & W3) Hp Hw. unfold wf. rewrite olocs_add. split; auto. split; auto.
+  apply Forall_app. split; auto.
+Qed.
+
+Lemma add_obj_clean cf o s m k : clean cf s m k -> clean cf (add_obj o s) m k.
+Proof. intros C e He Hm. exact (C e He Hm). Qed.
+
+Lemma add_obj_sep o s m k : separated s m k ->
+  (forall e, In e (cache s) -> e_m e = m -> e_loc k e <> o_p o /\ e_loc k e <> o_w o) ->
+  separated (add_obj o s) m k.
+Proof.
+  intros S H e He Hm Hin. rewrite olocs_add in Hin. apply in_app_iff in Hin.
+  destruct Hin as [Hin|Hin]; [exact (S e He Hm Hin)|].
+  destruct (H e He Hm) as (A & B). simpl in Hin. intuition.
+Qed.
+
+(* an object whose arrays were allocated after every cache entry *)
+Lemma add_fresh_obj o s n : wf s -> (forall l, In l (clocs s) -> l < n) ->
+  n <= o_p o < length (heap s) -> n <= o_w o < length (heap s) ->
+  wf (add_obj o s) /\ forall m k, separated s m k -> separated (add_obj o s) m k.
+Proof.
+  intros W Hc Hp Hw. split; [apply add_obj_wf; auto; lia|].
+  intros m k S. apply add_obj_sep; auto. intros e He _.
+  pose proof (Hc _ (in_clocs s e k He)). lia.
+Qed.
+
+Lemma hset_wf s l v : wf s -> wf (hset s l v).
+Proof. unfold wf, hset, clocs, olocs. simpl. now rewrite lset_length. Qed.
+
+Lemma hset_clean cf s l v m k : clean cf s m k ->
+  (forall e, In e (cache s) -> e_m e = m -> e_loc k e <> l) -> clean cf (hset s l v) m k.
+Proof.
+  intros C H e He Hm. unfold hget, hset. simpl. rewrite nth_lset_other; [exact (C e He Hm)|].
+  intros E. apply (H e He Hm). auto.
+Qed.
+
+Lemma olocs_set i o s x : In x (olocs (set_obj i o s)) -> In x (olocs s) \/ x = o_p o \/ x = o_w o.
+Proof.
+  unfold olocs, set_obj. simpl. intros H. apply in_flat_map in H. destruct H as (ob & Hob & Hx).
+  apply In_lset in Hob. destruct Hob as [->|Hob].
+  - simpl in Hx. intuition.
+  - left. apply in_flat_map. exists ob. auto.
+Qed.
+
+Lemma heap_set_obj i o s : heap (set_obj i o s) = heap s.
+Proof. reflexivity. Qed.
+
+Lemma wf_bound s : wf s -> forall l, In l (clocs s) -> l < length (heap s).
+Proof. intros (W & _). now rewrite Forall_forall in W. Qed.
+
+Lemma wf_obound s : wf s -> forall l, In l (olocs s) -> l < length (heap s).
+Proof. intros (_ & W & _). now rewrite Forall_forall in W. Qed.
+
+Lemma atom_shells_lib cf m ds : forall s ps ws s', wf s -> atom_shells cf m ds s = ((ps, ws), s') -> lib cf s s'.
+Proof.
+  induction ds as [|d r IH]; simpl; intros s ps ws s' W H.
+  - inversion H; subst. now apply lib_refl.
+  - destruct (construct_ang cf m d (c_libcache cf) s) as [[ip iw] s1] eqn:C.
+    destruct (atom_shells cf m r s1) as [[ps' ws'] s2] eqn:A. inversion H; subst; clear H.
+    apply construct_ang_spec in C; auto. destruct C as (L1 & _).
+    eapply lib_trans; [exact L1|]. eapply IH; eauto. apply L1.
+Qed.
+
+Lemma lib_wf cf s s' : lib cf s s' -> wf s'.
+Proof. intros (_ & _ & _ & W & _). exact W. Qed.
+
+Lemma lib_clean cf s s' m k : lib cf s s' -> clean cf s m k -> clean cf s' m k.
+Proof. intros (_ & _ & _ & _ & C). apply C. Qed.
+
+Lemma lib_heap cf s s' : lib cf s s' -> length (heap s) <= length (heap s').
+Proof. intros (P & _). now apply prefix_len. Qed.
+
+(* library transition followed by two allocations and the registration of the new object *)
+Lemma lib_alloc2_obj cf s s1 vp vw lp s2 lw s3 dsc m k :
+  wf s -> lib cf s s1 -> alloc vp s1 = (lp, s2) -> alloc vw s2 = (lw, s3) ->
+  let s4 := add_obj {| o_p := lp; o_w := lw; o_desc := dsc |} s3 in
+  wf s4 /\ (clean cf s m k -> clean cf s4 m k) /\ (separated s m k -> separated s4 m k).
+Proof.
+  intros W L A1 A2 s4. pose proof (lib_wf _ _ _ L) as W1.
+  pose proof (lib_alloc cf _ _ _ _ W1 A1) as L2. pose proof (lib_wf _ _ _ L2) as W2.
+  pose proof (lib_alloc cf _ _ _ _ W2 A2) as L3. pose proof (lib_wf _ _ _ L3) as W3.
+  apply alloc_spec in A1. destruct A1 as (G1 & -> & Ln1 & _).
+  apply alloc_spec in A2. destruct A2 as (G2 & -> & Ln2 & _).
+  assert (Hc : forall l, In l (clocs s3) -> l < length (heap s1)).
+  { intros l Hl. apply (wf_bound s1 W1). unfold clocs in *.
+    destruct G1 as (_ & C1 & _). destruct G2 as (_ & C2 & _). now rewrite <- C1, <- C2. }
+  destruct (add_fresh_obj {| o_p := length (heap s1); o_w := length (heap s2); o_desc := dsc |} s3
+              (length (heap s1)) W3 Hc) as (W4 & S4); simpl; try lia.
+  split; auto. split.
+  - intros C. apply add_obj_clean. eapply lib_clean; [exact L3|]. eapply lib_clean; [exact L2|].
+    eapply lib_clean; eauto.
+  - intros S. apply S4. apply (lib_sep cf s2 s3 m k W2 L3). apply (lib_sep cf s1 s2 m k W1 L2).
+    exact (lib_sep cf s s1 m k W L S).
+Qed.
+
+Lemma step_inv cf s o m k : wf s ->
+  wf (step cf s o) /\
+  (separated s m k -> clean cf s m k -> clean cf (step cf s o) m k) /\
+  (iso cf m k = true -> separated s m k -> separated (step cf s o) m k).
+Proof.
+  intros W. destruct o as [m' d c|m' d|o tag|o tag|o tag|o tag|m' ds|a i|l]; cbn [step].
+  - (* Construct *)
+    destruct (construct_ang cf m' d c s) as [[ip iw] s1] eqn:C.
+    apply construct_ang_spec in C; auto. destruct C as (L & Lp & Lw & Inst & Ca & _).
+    pose proof (lib_wf _ _ _ L) as W1.
+    split; [apply add_obj_wf; auto|]. split.
+    + intros _ Cl. apply add_obj_clean. eapply lib_clean; eauto.
+    + intros I S. apply add_obj_sep; [exact (lib_sep cf s s1 m k W L S)|]. simpl.
+      assert (Hk : forall e, In e (cache s1) -> e_m e = m -> forall k', e_loc k e <> sel k' ip iw).
+      { intros e He Hm k' E.
+        assert (Old : In e (cache s) -> False).
+        { intros Hin. destruct (Inst k') as [Hge|(e' & He' & Em' & _ & El & Is)].
+          - pose proof (wf_cloc s e k W Hin). lia.
+          - rewrite El in E. destruct W as (_ & _ & ND).
+            destruct (nodup_flat (cache s) e e' k k' ND Hin He' E) as (-> & ->). congruence. }
+        destruct Ca as [Ca|(en & Ca & Em & N1 & N2 & N3)].
+        - rewrite Ca in He. auto.
+        - rewrite Ca in He. apply in_app_iff in He. destruct He as [He|[<-|[]]]; auto.
+          assert (Emm : m' = m) by congruence. clear Hm. subst m'. try rewrite Emm in N3.
+          destruct k, k'; simpl in E; unfold e_loc in *; simpl in *;
+            [apply (N3 KP I); auto | auto | auto | apply (N3 KW I); auto]. }
+      intros e He Hm. split; [apply (Hk e He Hm KP) | apply (Hk e He Hm KW)].
+  - (* Touch *)
+    destruct (construct_ang cf m' d (c_libcache cf) s) as [[ip iw] s1] eqn:C. simpl.
+    apply construct_ang_spec in C; auto. destruct C as (L & _).
+    split; [eapply lib_wf; eauto|]. split.
+    + intros _. eapply lib_clean; eauto.
+    + intros _ S. exact (lib_sep cf s s1 m k W L S).
+  - (* MutP *)
+    unfold mut. destruct (nth_error (objs s) o) as [ob|] eqn:N; [|tauto].
+    split; [now apply hset_wf|]. split; [|intros _ S; exact S].
+    intros S Cl. apply hset_clean; auto. intros e He Hm E.
+    apply (S e He Hm). rewrite E. apply in_olocs. eapply nth_error_In; eauto.
+  - (* MutW *)
+    unfold mut. destruct (nth_error (objs s) o) as [ob|] eqn:N; [|tauto].
+    split; [now apply hset_wf|]. split; [|intros _ S; exact S].
+    intros S Cl. apply hset_clean; auto. intros e He Hm E.
+    apply (S e He Hm). rewrite E. apply in_olocs. eapply nth_error_In; eauto.
+  - (* SetP *)
+    unfold setattr. destruct (nth_error (objs s) o) as [ob|] eqn:N; [|tauto].
+    destruct (alloc (fill tag (hget s (o_loc KP ob))) s) as [l1 s1] eqn:A.
+    pose proof (lib_alloc cf _ _ _ _ W A) as L. pose proof (lib_wf _ _ _ L) as W1.
+    apply alloc_spec in A. destruct A as (G & -> & Ln & _).
+    pose proof (nth_error_In _ _ N) as Hob.
+    assert (Ho : forall x, In x (olocs (set_obj o {| o_p := sel KP (length (heap s)) (o_p ob);
+                 o_w := sel KP (o_w ob) (length (heap s)); o_desc := o_desc ob |} s1)) ->
+                 In x (olocs s) \/ x = length (heap s)).
+    { intros x Hx. apply olocs_set in Hx. simpl in Hx. destruct Hx as [Hx|[-> | ->]]; auto.
+      - left. unfold olocs in *. destruct G as (_ & _ & O). now rewrite <- O.
+      - left. apply (in_olocs s ob KW Hob). }
+    split; [|split].
+    + destruct W1 as (A1 & A2 & A3). split; [exact A1|]. split; [|exact A3].
+      apply Forall_forall. intros x Hx. apply Ho in Hx. rewrite heap_set_obj. destruct Hx as [Hx| ->]; [|lia].
+      pose proof (wf_obound s W x Hx). lia.
+    + intros _ Cl e He Hm. exact (lib_clean _ _ _ _ _ L Cl e He Hm).
+    + intros _ S e He Hm Hin. apply Ho in Hin.
+      assert (He' : In e (cache s)) by (destruct G as (_ & C & _); now rewrite <- C).
+      destruct Hin as [Hin| Hin]; [exact (S e He' Hm Hin)|].
+      pose proof (wf_cloc s e k W He'). lia.
+  - (* SetW *)
+    unfold setattr. destruct (nth_error (objs s) o) as [ob|] eqn:N; [|tauto].
+    destruct (alloc (fill tag (hget s (o_loc KW ob))) s) as [l1 s1] eqn:A.
+    pose proof (lib_alloc cf _ _ _ _ W A) as L. pose proof (lib_wf _ _ _ L) as W1.
+    apply alloc_spec in A. destruct A as (G & -> & Ln & _).
+    pose proof (nth_error_In _ _ N) as Hob.
+    assert (Ho : forall x, In x (olocs (set_obj o {| o_p := sel KW (length (heap s)) (o_p ob);
+                 o_w := sel KW (o_w ob) (length (heap s)); o_desc := o_desc ob |} s1)) ->
+                 In x (olocs s) \/ x = length (heap s)).
+    { intros x Hx. apply olocs_set in Hx. simpl in Hx. destruct Hx as [Hx|[-> | ->]]; auto.
+      - left. unfold olocs in *. destruct G as (_ & _ & O). now rewrite <- O.
+      - left. apply (in_olocs s ob KP Hob). }
+    split; [|split].
+    + destruct W1 as (A1 & A2 & A3). split; [exact A1|]. split; [|exact A3].
+      apply Forall_forall. intros x Hx. apply Ho in Hx. rewrite heap_set_obj. destruct Hx as [Hx| ->]; [|lia].
+      pose proof (wf_obound s W x Hx). lia.
+    + intros _ Cl e He Hm. exact (lib_clean _ _ _ _ _ L Cl e He Hm).
+    + intros _ S e He Hm Hin. apply Ho in Hin.
+      assert (He' : In e (cache s)) by (destruct G as (_ & C & _); now rewrite <- C).
+      destruct Hin as [Hin| Hin]; [exact (S e He' Hm Hin)|].
+      pose proof (wf_cloc s e k W He'). lia.
+  - (* MkAtom *)
+    destruct (atom_shells cf m' ds s) as [[ps ws] s1] eqn:A.
+    destruct (alloc ps s1) as [lp s2] eqn:A1. destruct (alloc ws s2) as [lw s3] eqn:A2.
+    pose proof (atom_shells_lib _ _ _ _ _ _ _ W A) as L.
+    destruct (lib_alloc2_obj cf s s1 ps ws lp s2 lw s3 (DAtom m' ds) m k W L A1 A2) as (X & Y & Z).
+    split; auto.
+  - (* Shell *)
+    destruct (nth_error (objs s) a) as [[op ow [|m' ds|]]|] eqn:N; try tauto.
+    destruct (nth_error ds i) as [d|] eqn:N2; [|tauto].
+    destruct (construct_ang cf m' d (c_libcache cf) s) as [[ip iw] s1] eqn:C.
+    destruct (alloc (map Rad (hget s1 ip)) s1) as [lp s2] eqn:A1.
+    destruct (alloc (map Rad (hget s1 iw)) s2) as [lw s3] eqn:A2.
+    apply construct_ang_spec in C; auto. destruct C as (L & _).
+    destruct (lib_alloc2_obj cf s s1 _ _ lp s2 lw s3 DOther m k W L A1 A2) as (X & Y & Z).
+    split; auto.
+  - (* MkMol *)
+    match goal with |- context [alloc ?v s] => destruct (alloc v s) as [lp s2] eqn:A1 end.
+    match goal with |- context [alloc ?v s2] => destruct (alloc v s2) as [lw s3] eqn:A2 end.
+    destruct (lib_alloc2_obj cf s s _ _ lp s2 lw s3 DOther m k W (lib_refl cf s W) A1 A2) as (X & Y & Z).
+    split; auto.
+Qed.
